@@ -13,6 +13,7 @@ import Props.Lemmas.C18_Argv
 import Props.Lemmas.C18_Classify
 import Props.Lemmas.C18_Main
 import Props.Lemmas.C18_Shortcut
+import Props.Lemmas.C18_Handler
 
 namespace Pypyr.C18
 open Pypyr.Cli
@@ -977,6 +978,92 @@ theorem shortcut_config_errors (n : String) (sc : List (Val × Val)) (c : ApiCal
 
 example : applyShortcut [("sc", .dict [(.str "groups", .str "g")])] { name := "sc" } =
       some (.error ⟨"pypyr.errors.ConfigError", "shortcut 'sc' has no pipeline_name set. You must set pipeline_name for this shortcut in config so that pypyr knows which pipeline to run."⟩) := by
+  decide +kernel
+
+/-! ## The context parser raises: `--groups`, `--success`, `--failure` decide the handler, unchanged -/
+
+/-- **Which failure handler runs when the context parser raises** (all argument combinations, all
+    pipelines): the `--failure` group as passed whenever any of `--groups` / `--success` /
+    `--failure` was given (so NONE when `--groups` and/or `--success` came without `--failure`),
+    `on_failure` only for a run that gave none of the three; the rule is the flow model's
+    (`Flow.effectiveGroups`, C01), and at most that one group runs. -/
+theorem parser_failure_handler_spec (g : GroupArgs) (body : String → Option HandlerEnd) :
+    failureHandler g =
+      (if groupsTruthy g.groups || strTruthy g.success || strTruthy g.failure then g.failure else some "on_failure") ∧
+    (∀ name, failureHandler g = (Pypyr.Flow.effectiveGroups (g.toInst name)).2.2) ∧
+    (ranOnParserFailure body g = [] ∨ ∃ n, failureHandler g = some n ∧ ranOnParserFailure body g = [n]) := by
+  refine ⟨failureHandler_closed g, fun name => by rw [failureHandler, effectiveArgs_eq_flow g name], ?_⟩
+  unfold ranOnParserFailure
+  cases h : failureHandler g with
+  | none => left; rfl
+  | some n => by_cases hb : (body n).isSome = true
+              · right; exact ⟨n, rfl, by simp [hb]⟩
+              · left; simp [hb]
+
+/-- **`--groups` and/or `--success` without `--failure`, context parser raises → exit 255 with the
+    parser's error, no group runs** - whatever groups the pipeline has (an `on_failure` with a Stop
+    in it included) and however they would end. -/
+theorem parser_error_without_failure_group (g : GroupArgs) (body : String → Option HandlerEnd) (ty msg : String)
+    (hgiven : groupsTruthy g.groups = true ∨ strTruthy g.success = true) (hf : g.failure = none) :
+    failureHandler g = none ∧ ranOnParserFailure body g = [] ∧
+    parserFailure body g (.error ty msg) = .error ty msg ∧
+    exitStatus (parserFailure body g (.error ty msg)) = some 255 ∧
+    (tryMain (pipelineRun (parserFailure body g (.error ty msg)))).stderr =
+      "\n" ++ "\x1b[91m" ++ ty ++ ": " ++ msg ++ "\x1b[0;0m" ++ "\n" := by
+  have h : failureHandler g = none := by
+    rw [failureHandler_closed]
+    rcases hgiven with h | h <;> simp [h, hf]
+  refine ⟨h, by simp [ranOnParserFailure, h], ?_⟩
+  have hp : parserFailure body g (.error ty msg) = .error ty msg := by
+    simp [parserFailure, h, runHandler, parserFailed]
+  rw [hp]
+  exact ⟨rfl, rfl, rfl⟩
+
+example : failureHandler { groups := some ["build"] } = none ∧
+    failureHandler { success := some "done" } = none ∧
+    failureHandler { groups := some ["build"], failure := some "on_failure" } = some "on_failure" ∧
+    failureHandler {} = some "on_failure" ∧ failureHandler { groups := some [] } = some "on_failure" ∧
+    parserFailure (fun n => if n = "on_failure" then some .stop else none) { groups := some ["build"] }
+      (.error "JSONDecodeError" "m") = .error "JSONDecodeError" "m" ∧
+    parserFailure (fun n => if n = "on_failure" then some .stop else none) {} (.error "JSONDecodeError" "m") = .stop := by
+  decide
+
+/-- **Exit status when the context parser raised**, every case: 0 exactly when the handler that ran
+    ended with `Stop` or `StopPipeline` (the run was ended by a Stop instruction), 255 otherwise -
+    in particular whenever no handler ran. -/
+theorem parser_error_exit_status (g : GroupArgs) (body : String → Option HandlerEnd) (ty msg : String) :
+    exitStatus (parserFailure body g (.error ty msg)) =
+      (if runHandler body (failureHandler g) = .stop ∨ runHandler body (failureHandler g) = .stopPipeline
+       then some 0 else some 255) :=
+  parserFailed_status ty msg _
+
+/-! ## Parsers are functions of the argument list: results are new objects -/
+
+/-- **A sequence of parser calls and in-place mutations of earlier results in one process**: when
+    every `return` builds its result anew, the k-th call yields `parse p args` whatever was called
+    and whatever was written into earlier results before. -/
+theorem parser_calls_independent_of_history (loads : String → Except Exc Val) (ops : List POp) (st : ParserProc) :
+    runPOps loads parserSrc st ops =
+      ops.filterMap (fun o => match o with
+        | .call p args => some (parse loads p args)
+        | .mutate _ _ => none) :=
+  runPOps_fresh loads parserSrc (fun _ _ => rfl) ops st
+
+/-- the hypothesis is needed: with the no-argument result of the dict parser kept at module level,
+    a step that fills `argDict` in place changes what the next no-argument parse returns -/
+theorem shared_result_witness :
+    runPOps (fun _ => .error ⟨"x", ""⟩) (fun p a => if p = .dict ∧ a = [] then .cell 0 else .fresh) {}
+      [.call .dict [], .mutate 0 (.dict [(.str "argDict", .dict [(.str "env", .str "dev")])]), .call .dict []] =
+    [.ok (some (.dict [(.str "argDict", .dict [])])),
+     .ok (some (.dict [(.str "argDict", .dict [(.str "env", .str "dev")])]))] := by
+  decide +kernel
+
+/-- **Extractor agreement**: every `return` of every built-in parser's `get_parsed_context` returns
+    `None` or an object built by that call - none returns an object living at module level. -/
+theorem parser_returns_agree :
+    Generated.CliMain.parserReturns =
+      [("keyvaluepairs", ["none", "new"]), ("argskwargs", ["new", "new"]), ("dict", ["new", "new"]),
+       ("list", ["new", "new"]), ("string", ["new", "new"]), ("keys", ["none", "new"]), ("json", ["none", "new"])] := by
   decide +kernel
 
 end Pypyr.C18
